@@ -221,6 +221,7 @@ func (m *Machine) setupIntrinsics() {
 		}
 		return goInt(-1)
 	})
+	reg("vIsOpaque", func(m *Machine, a []Val) Val { return Bool{C: a[0].(Slice).Blob != nil} })
 	reg("vBlobKind", func(m *Machine, a []Val) Val {
 		id := a[0].(Int).AsInt()
 		if id < 0 || id >= len(m.blobs) {
